@@ -15,6 +15,8 @@ cannot change the old one); what the Rust code adds (manual `Clone` of the tree 
 regexes replaced by `cache`) is validated by the correspondence harness `c02` only.
 -/
 import RioModel.Proofs.RouterTreeTop
+import RioModel.Proofs.RouterUnderflow
+import RioModel.Generated.Consts
 import RioModel.Props.C08
 import RioModel.Model.RouterParse
 set_option linter.unusedSimpArgs false
@@ -173,6 +175,80 @@ theorem count_no_underflow (E : Env) (S : Router E) (L : List Route) (id : Strin
     (hs : ((towerOps E).remove id S.matcher).2.isSome = true) : 0 < (towerOps E).len S.matcher :=
   (towerLaws E).remove_pos _ _ id h.matcher hs
 
+/-! ### Clone isolation: the static ownership tie (review A, C02-2)
+
+In this model a router is a VALUE: `clone` is no operation, and "deriving an updated router from a shared existing one
+never changes the answers of the existing one" holds by construction.  For the code that is an ownership fact, tied to
+the source by tools/consts.d/w2_ownership.py on every run (fails closed against the committed whitelist
+tools/consts.d/w2_ownership_whitelist.json, one justification per entry):
+
+* two clones of a `Router<T>` share exactly what is behind an `Arc` (17 field lines: the configuration, the routes, the
+  `LazyRegex` of tree items, the compiled `regex::Regex`), and the five hand-written `impl Clone` are field-wise;
+* `Arc` gives `&` access only, and NOTHING in src/router, src/regex_radix_tree, src/regex.rs, src/marker, src/api/rule.rs
+  writes through a shared pointer (`Arc::get_mut` / `make_mut`, `unsafe`, statics, `Mutex`, atomics: none) except the one
+  cell listed below: `MarkerString.regex_capture : Arc<RwLock<LazyRegex>>`, written by `MarkerString::compile` (reached
+  from `Router::cache`, second phase) with `regex.compile()` – the same regex with its compiled value cached.  That write
+  is visible to the other clone, and harmless: a `LazyRegex` answers alike compiled or not (property C12,
+  `lazy_compile_preserves`), and no matcher reads `regex_capture`.  The tree items' `Arc<LazyRegex>` are REPLACED by
+  `cache`, never mutated.  The `RefCell` of `HostMatcher::remove` is a local of the call (model: `lastHit`).
+
+The theorem pins the list the extractor found: a new cell, lock, atomic or `unsafe` in these files changes the
+regenerated constant (or fails the extractor) and this file no longer checks.  The dynamic side is the harness oracle
+`clone-aliasing` of c02 (validated by an injected aliasing fault, see notes/wp/W2.md). -/
+theorem clone_isolation_ownership_tie :
+    Rio.Consts.routerInteriorMutability =
+      ["src/marker/mod.rs: match self.regex_capture.write() {",
+       "src/marker/mod.rs: regex_capture: Arc::new(RwLock::new(LazyRegex::new_leaf(capture.as_str(), ignore_case))),",
+       "src/marker/mod.rs: regex_capture: Arc<RwLock<LazyRegex>>,",
+       "src/marker/mod.rs: use std::sync::{Arc, RwLock};",
+       "src/router/request_matcher/host.rs: *removed_in_tree.borrow_mut() = Some(value);",
+       "src/router/request_matcher/host.rs: let removed_in_tree = std::cell::RefCell::new(None);"] ∧
+    Rio.Consts.routerSharedFieldLines = 17 ∧
+    Rio.Consts.routerManualClones = ["Item", "Leaf", "Node", "RegexTreeMap", "UniqueRegexTreeMap"] := by
+  decide
+
+/-- **No `count -= 1` underflows, in ANY of the seven matchers** (all 14 decrement sites: every matcher has one
+after an `any_*` bucket hit and one after a keyed-bucket hit; the path matcher after a tree hit and after a static
+hit).  One `Router::remove(id)` runs `remove(id)` on the `any` bucket and – through `retain` – on EVERY keyed bucket
+of every layer; `(towerUFlow E).under id m` (Proofs/RouterUnderflow.lean, `lUnderflow`) follows that control flow and
+says "one of the decrements executed on the way finds `count == 0`".  It is false in every represented state. -/
+theorem no_count_underflow (E : Env) (S : Router E) (L : List Route) (id : String) (h : RRepr E S L) :
+    (towerUFlow E).under id S.matcher = false :=
+  (towerUFlow E).safe _ _ id h.matcher
+
+/-- … hence at every `remove` executed anywhere in a valid history (the state before it is the state after a
+prefix). -/
+theorem no_count_underflow_run (E : Env) (h : List Op) (hv : ValidHistory h []) (h' : List Op) (hp : h' <+: h)
+    (id : String) : (towerUFlow E).under id (runOps E h' (Router.empty E)).matcher = false := by
+  obtain ⟨t, ht⟩ := hp
+  have hv' : ValidHistory h' [] := valid_prefix h' t [] (ht ▸ hv)
+  exact no_count_underflow E _ _ id (repr_run E h' (Router.empty E) [] (rrepr_empty E) hv')
+
+/-- What the detector of the tower is: the outer-matcher detector `lUnderflow`, six times, over "the path matcher
+found the route and its count is 0". -/
+theorem towerUFlow_under (E : Env) :
+    (towerUFlow E).under =
+      lUnderflow (hostOps (specHost E) (ipOps (methodOps (headerOps E (dateTimeOps (pathOps E))))))
+        (lUnderflow (ipOps (methodOps (headerOps E (dateTimeOps (pathOps E)))))
+          (lUnderflow (methodOps (headerOps E (dateTimeOps (pathOps E))))
+            (lUnderflow (headerOps E (dateTimeOps (pathOps E)))
+              (lUnderflow (dateTimeOps (pathOps E))
+                (lUnderflow (pathOps E)
+                  (fun id (m : PathState) => (Path.remove id m).2.isSome && m.count == 0)))))) := rfl
+
+/-- The detector is not vacuous: on a date-time matcher whose `count` is 0 although its `any` bucket holds the
+rule (a state no history produces) it fires – at the outer decrement; and it fires at the INNER decrement when the
+outer count is right but the path matcher's is not. -/
+example (E : Env) (r : Route) (hp : r.path = .static "/a") :
+    lUnderflow (pathOps E) (leafUFlow (pathLaws E)).under r.id
+      (⟨Path.insert r Path.empty, ([] : List (Option (List DCond) × PathState)), 0⟩) = true := by
+  simp [lUnderflow, leafUFlow, pathOps, Path.insert, Path.remove, Path.empty, hp, entryRemove, aupsert]
+
+example (E : Env) (r : Route) :
+    lUnderflow (pathOps E) (leafUFlow (pathLaws E)).under r.id
+      (⟨⟨[], [(("/a", r.id), r)], 0⟩, ([] : List (Option (List DCond) × PathState)), 1⟩) = true := by
+  simp [lUnderflow, leafUFlow, pathOps, Path.remove, entryRemove]
+
 /-! ### The same statements with the two regex trees modelled as trees (composition with C08)
 
 `runOpsG (towerTOps T)` runs the history on the router whose `regex_tree_rule`s are the radix-tree
@@ -211,6 +287,28 @@ theorem repr_run_tree (T : TEnv) (Good : List Char → Prop) (hPS : PrefixSound 
     intro S L hr hv hg
     exact ih _ _ (repr_op_tree T Good hPS S L op hr hv.1 (hg op (List.mem_cons_self ..))) hv.2
       (fun op' hop' => hg op' (List.mem_cons_of_mem _ hop'))
+
+open Rio.Regex Rio.Tree in
+open Rio.Regex Rio.Tree in
+/-- **No `count -= 1` underflows over the real trees either**: the detector follows `HostMatcher::remove` through
+both `retain`s (static buckets and every bucket stored in the regex tree) and `PathAndQueryMatcher::remove` through
+`regex_tree_rule.remove(id)`. -/
+theorem no_count_underflow_tree (T : TEnv) (Good : List Char → Prop) (hPS : PrefixSound T.engine Good)
+    (S : RouterT T) (L : List Route) (id : String) (h : RReprT T Good hPS S L) :
+    (towerTUFlow T Good hPS).under id S.matcher = false :=
+  (towerTUFlow T Good hPS).safe _ _ id h.matcher
+
+open Rio.Regex Rio.Tree in
+theorem no_count_underflow_run_tree (T : TEnv) (Good : List Char → Prop) (hPS : PrefixSound T.engine Good)
+    (h : List Op) (hv : ValidHistory h []) (hg : ∀ op ∈ h, ∀ r ∈ opRoutes op, TreeGood T Good r)
+    (h' : List Op) (hp : h' <+: h) (id : String) :
+    (towerTUFlow T Good hPS).under id (runOpsG (towerTOps T) h' (RouterG.empty _)).matcher = false := by
+  obtain ⟨t, ht⟩ := hp
+  have hv' : ValidHistory h' [] := valid_prefix h' t [] (ht ▸ hv)
+  have hg' : ∀ op ∈ h', ∀ r ∈ opRoutes op, TreeGood T Good r :=
+    fun op hop => hg op (ht ▸ List.mem_append_left _ hop)
+  exact no_count_underflow_tree T Good hPS _ _ id
+    (repr_run_tree T Good hPS h' (RouterG.empty _) [] (g_empty T.env _ (towerTSpec T Good hPS)) hv' hg')
 
 open Rio.Regex Rio.Tree in
 /-- **C02 over the real trees**: after every prefix of a valid history whose inserted rules have
